@@ -311,13 +311,16 @@ fn shrink_op(op: &Op) -> Vec<Op> {
             argv,
             out_fault,
             err_fault,
+            real,
         } => {
+            let real = *real;
             if *out_fault != StreamFault::None {
                 out.push(Op::Launch {
                     p: *p,
                     argv: argv.clone(),
                     out_fault: StreamFault::None,
                     err_fault: err_fault.clone(),
+                    real,
                 });
             }
             if *err_fault != StreamFault::None {
@@ -326,6 +329,7 @@ fn shrink_op(op: &Op) -> Vec<Op> {
                     argv: argv.clone(),
                     out_fault: out_fault.clone(),
                     err_fault: StreamFault::None,
+                    real,
                 });
             }
             if argv.len() > 1 {
@@ -337,6 +341,7 @@ fn shrink_op(op: &Op) -> Vec<Op> {
                         argv: full,
                         out_fault: out_fault.clone(),
                         err_fault: err_fault.clone(),
+                    real,
                     });
                 }
             }
@@ -348,6 +353,7 @@ fn shrink_op(op: &Op) -> Vec<Op> {
                     argv: full,
                     out_fault: out_fault.clone(),
                     err_fault: err_fault.clone(),
+                    real,
                 });
             }
         }
